@@ -10,6 +10,6 @@ for f in sys.argv[2].split(','):
     except Exception as e:
         import traceback; traceback.print_exc()
     print(f, v.status, v.why, 'queries',v.queries,'paths',v.paths,'covers',v.covers_sat,v.covers_total,'%.1fs'%(time.time()-t))
-    for x in v.failed[:8]: print('   FAIL', x)
+    for x in v.failed[:30]: print("   FAIL", x)
     if v.witness: print('   wit', str(v.witness)[:700])
     for n in v.notes[:5]: print('   note', n)
